@@ -214,6 +214,10 @@ class Check:
         write_evidence(self.prop, self.tier, self.level, cov, wall, nviol, assumptions)
         for kid, n in self.known_hits.items():
             print(f"KNOWN-FINDING: property={self.prop} {kid}: {self.known_what.get(kid, '')} ({n} occurrence(s) in this run)")
+        # every violation (up to 200) for tooling; the first five as replay files
+        with open(os.path.join(OUT, f"{self.prop}.violations.ndjson"), "w") as fh:
+            for v in self.violations:
+                fh.write(json.dumps({k: v[k] for k in v if k != "session"}) + "\n")
         if self.violations:
             for i, v in enumerate(self.violations[:5]):
                 p = write_replay(self.prop, v, i)
